@@ -89,3 +89,16 @@ Example C06_generated_configurations_have_well_formed_flag_tables :
   cfg_flags_ok Cfg37.cfg = true /\ cfg_flags_ok Cfg38.cfg = true /\
   cfg_flags_ok Cfg39.cfg = true /\ cfg_flags_ok Cfg310.cfg = true.
 Proof. exact generated_cfgs_flags_ok. Qed.
+
+(* Tie of normalize to the current source: Gen/SrcNorm.v holds, re-translated from code_data/_normalize.py on every
+   run, one function per data class saying which fields `replace` resets and to what, which are normalized
+   recursively, and which classes fall through unchanged; they are the model's, for every normalizer of nested
+   constants - so the theorems above are about what normalize() does now (a field kept, or reset only on some
+   interpreters, changes the translated term and breaks this obligation). *)
+From PCD Require Gen.SrcNorm Proofs.SrcNormTie.
+Theorem C06_normalize_is_the_source :
+  (forall d, normalize d = PCD.Gen.SrcNorm.Norm.norm_cd normalize_const d) /\
+  (forall k, normalize_const k =
+     match k with KInner i => KInner i | KCode d => KCode (PCD.Gen.SrcNorm.Norm.norm_cd normalize_const d) end).
+Proof. split; [exact SrcNormTie.normalize_tie | exact SrcNormTie.normalize_const_tie]. Qed.
+Print Assumptions C06_normalize_is_the_source.
